@@ -24,6 +24,8 @@ pub enum ElemTy {
     Str,
     OptU32,
     VecU32,
+    /// an array whose cells are arrays (`TooDee<TooDee<u32>>`): the visitor runs re-entrantly
+    Nested,
 }
 
 #[derive(Clone, Copy, Debug, PartialEq, Eq, Serialize, Deserialize)]
@@ -198,6 +200,18 @@ impl CellTy for Option<u32> {
 impl CellTy for Vec<u32> {
     fn gen(i: usize, salt: u32) -> Vec<u32> {
         (0..(i + salt as usize) % 4).map(|j| u32::gen(i + j, salt)).collect()
+    }
+}
+
+impl CellTy for TooDee<u32> {
+    fn gen(i: usize, salt: u32) -> TooDee<u32> {
+        let (c, r) = match (i + salt as usize) % 4 {
+            0 => (0, 0),
+            1 => (1, 2),
+            2 => (3, 1),
+            _ => (2, 2),
+        };
+        TooDee::from_vec(c, r, (0..c * r).map(|j| u32::gen(i + j, salt)).collect())
     }
 }
 
@@ -732,6 +746,7 @@ fn default_elem(elem: ElemTy) -> Value {
         ElemTy::Str => Value::from(""),
         ElemTy::OptU32 => Value::Null,
         ElemTy::VecU32 => Value::Array(vec![]),
+        ElemTy::Nested => serde_json::json!({"data": [], "num_rows": 0, "num_cols": 0}),
     }
 }
 
@@ -1039,6 +1054,7 @@ pub fn exec(t: &SerdeTrace, prop: &str, stats: &mut SStats) -> Result<bool, SVio
         ElemTy::Str => "String",
         ElemTy::OptU32 => "Option<u32>",
         ElemTy::VecU32 => "Vec<u32>",
+        ElemTy::Nested => "TooDee<u32>",
     }).or_insert(0) += 1;
     if t.source != Source::Owned {
         if t.elem != ElemTy::U32 {
@@ -1053,6 +1069,7 @@ pub fn exec(t: &SerdeTrace, prop: &str, stats: &mut SStats) -> Result<bool, SVio
         ElemTy::Str => run_typed::<String>(t, prop, stats),
         ElemTy::OptU32 => run_typed::<Option<u32>>(t, prop, stats),
         ElemTy::VecU32 => run_typed::<Vec<u32>>(t, prop, stats),
+        ElemTy::Nested => run_typed::<TooDee<u32>>(t, prop, stats),
     }
 }
 
@@ -1083,7 +1100,7 @@ fn gen_dimval(rng: &mut Rng) -> DimVal {
 
 pub fn gen_trace(rng: &mut Rng, prop: &str, thorough: bool) -> SerdeTrace {
     let max_dim = if thorough { 8 } else { 5 };
-    let elem = *[ElemTy::U32, ElemTy::U32, ElemTy::I64, ElemTy::Str, ElemTy::OptU32, ElemTy::VecU32].get(rng.below(6)).unwrap();
+    let elem = *[ElemTy::U32, ElemTy::U32, ElemTy::I64, ElemTy::Str, ElemTy::OptU32, ElemTy::VecU32, ElemTy::Nested].get(rng.below(7)).unwrap();
     let (cols, rows) = match rng.below(10) {
         0 => (0, 0),
         1 => (1, rng.range(1, max_dim)),
